@@ -541,14 +541,18 @@ class Register(wiring.Component):
         m = Module()
 
         field_start = 0
+        field_names = ["__".join(str(key) for key in field_path) for field_path, _ in self]
 
         for field_path, field in self:
             field_width = Shape.cast(field.port.shape).width
             field_slice = slice(field_start, field_start + field_width)
 
-            if field_path:
-                m.submodules["__".join(str(key) for key in field_path)] = field
-            else: # avoid empty name for a single un-named field
+            # Distinct field paths may be joined into the same name (e.g. ("a", "b") and ("a__b",));
+            # such fields, like a single un-named field, are added as anonymous submodules.
+            field_name = "__".join(str(key) for key in field_path)
+            if field_path and field_names.count(field_name) == 1:
+                m.submodules[field_name] = field
+            else:
                 m.submodules += field
 
             if field.port.access.readable():
@@ -794,8 +798,16 @@ class Bridge(wiring.Component):
         m = Module()
 
         m.submodules.mux = self._mux
-        for reg, reg_name, _ in self.bus.memory_map.resources():
-            m.submodules["__".join(str(part) for part in reg_name)] = reg
+        # Distinct register names may be joined into the same submodule name (e.g. ("a", "b") and
+        # ("a__b",)), or into "mux"; the registers are then named after their position instead.
+        reg_names = ["__".join(str(part) for part in reg_name)
+                     for _, reg_name, _ in self.bus.memory_map.resources()]
+        unambiguous = len(set(reg_names + ["mux"])) == len(reg_names) + 1
+        for reg_index, (reg, reg_name, _) in enumerate(self.bus.memory_map.resources()):
+            if unambiguous:
+                m.submodules["__".join(str(part) for part in reg_name)] = reg
+            else:
+                m.submodules[f"reg_{reg_index}"] = reg
 
         connect(m, flipped(self.bus), self._mux.bus)
 
